@@ -40,6 +40,7 @@ sb == Str(<<98>>)
 sE == Str(<<195, 169>>)  sSmile == Str(<<240, 159, 152, 128>>)
 sCtl == Str(<<1>>)       sQuote == Str(<<34>>)   sa1 == Str(<<97, 1>>)
 sTrue == Str(<<116, 114, 117, 101>>)   s12 == Str(<<49, 50>>)
+sNum15 == Str(<<45, 49, 46, 53, 101, 50>>)   sNumBig == Str(<<49, 56, 52, 52, 54, 55, 52, 52, 48, 55, 51, 55, 48, 57, 53, 53, 49, 54, 49, 54>>)
 
 kEmpty == <<>>  ka == <<97>>  kA == <<65>>  kb == <<98>>  kab == <<97, 98>>  kE == <<195, 169>>  kB == <<66>>
 
